@@ -26,7 +26,7 @@ extern "C" __attribute__((used, visibility("default"))) const char * __asan_defa
 }
 extern "C" __attribute__((used, visibility("default"))) const char * __ubsan_default_options()
 {
-  return "print_stacktrace=1:halt_on_error=1";
+  return "print_stacktrace=1:halt_on_error=1:exitcode=77";
 }
 #endif
 #if defined(SIM_FLAVOUR_tsan)
@@ -48,6 +48,7 @@ static double now_s()
 
 static std::string g_san_dir = "/verif/build/san";
 static std::string g_self;
+std::string self_exe() { return g_self; }
 
 static void quiet_stdio()
 {
@@ -86,11 +87,21 @@ static std::string read_file(const std::string & p)
   return o.str();
 }
 
+static void classify_san_text(const std::string & path, const std::string & txt, Outcome & o);
 static void classify_san_log(pid_t pid, Outcome & o)
 {
   std::string path = g_san_dir + "/log." + std::to_string((long)pid);
   std::string txt = read_file(path);
+  if (txt.empty()) {
+    // UBSan (combined with ASan in gcc's runtime) reports on stderr: one-shot children keep it
+    path = g_san_dir + "/stderr." + std::to_string((long)pid);
+    txt = read_file(path);
+  }
   if (txt.empty()) return;
+  classify_san_text(path, txt, o);
+}
+static void classify_san_text(const std::string & path, const std::string & txt, Outcome & o)
+{
   std::istringstream in(txt);
   std::string line, kind, frame, harness_frame;
   bool first_stack_done = false;
@@ -721,6 +732,7 @@ static int cmd_gen(std::map<std::string, std::string> & args)
 
 int cmd_catalogue(std::map<std::string, std::string> & args); // configs.cc
 int cmd_probe(std::map<std::string, std::string> & args);     // configs.cc
+int cmd_lists_child(const std::string & planfile);            // suite_files.cc
 
 } // namespace sim
 
@@ -753,6 +765,7 @@ int main(int argc, char ** argv)
   if (cmd == "gen") return cmd_gen(args);
   if (cmd == "catalogue") return cmd_catalogue(args);
   if (cmd == "probe") return cmd_probe(args);
+  if (cmd == "lists-child") { if (pos.empty()) return 2; return cmd_lists_child(pos[0]); }
   if (cmd == "suites") { for (auto & n : suite_names()) printf("%s\t%s\n", n.c_str(), find_suite(n)->what.c_str()); return 0; }
   fprintf(stderr, "bxsim: unknown command %s\n", cmd.c_str());
   return 2;
